@@ -15,7 +15,7 @@ request `c13.run`:
         | {"kind":"quad","g0":[..],"g2":[..]},
    "real":null|[..],            -- second noise interface: realization = r[comp] * u
    "maxiter":k, "maxerr":x}
-answer: {"final":[..]|null, "rest":k, "vol":[..], "vars":[..]}
+answer: {"final":[..]|null, "rest":k, "vol":[..], "vars":[..], "gen_final":[..]|null, "gen_rest":k}  (gen_*: `Sys.runGen`)
 request `c13.layout`: {"kind":"field"|"collection", "noise":[..], "ncomp":k | "ncomps":[..]} -> [..] (Rat)
 -/
 namespace PdeVerif.Drv.C13
@@ -156,16 +156,39 @@ def handle (getK : Json → Except String K) (putK : K → Json) (sqrt : K → K
   let maxerr ← (match fldOpt j "maxerr" with
     | some v => getK v
     | none => pure (((1:Nat) : K) / ((10000:Nat) : K)))
-  let S : Sys K := {
-    n := n, ncell := ncell, dt := dt, s := sqrt dt, interp := interp, inv := invCell vol,
-    rate := rate, var := var, varDiff := varDiff, real := real, sqrt := sqrt,
-    maxiter := maxiter, maxerr2 := maxerr * maxerr }
+  -- collections run through the model definition `collSys` (the object of the theorems of Props/C13b.lean)
+  let S : Sys K ← (if vkind = "collection" then do
+      let noise ← fldKs getK vj "noise"
+      let ncomps ← fldNs vj "ncomps"
+      let S := collSys sqrt dt interp vol noise.toList ncomps rate real maxiter (maxerr * maxerr)
+      if S.n ≠ n then throw s!"collSys: {S.n} entries, state has {n}"
+      pure S
+    else if vkind = "field" then do
+      let noise ← fldKs getK vj "noise"
+      let S := fieldSys sqrt dt interp vol noise.toList ncomp rate real maxiter (maxerr * maxerr)
+      if S.n ≠ n then throw s!"fieldSys: {S.n} entries, state has {n}"
+      pure S
+    else if vkind = "quad" then do
+      let g0 ← fldKs getK vj "g0"
+      let g2 ← fldKs getK vj "g2"
+      pure (quadSys sqrt dt interp n vol g0 g2 rate real maxiter (maxerr * maxerr))
+    else pure {
+      n := n, ncell := ncell, dt := dt, s := sqrt dt, interp := interp, inv := invCell vol,
+      rate := rate, var := var, varDiff := varDiff, real := real, sqrt := sqrt,
+      maxiter := maxiter, maxerr2 := maxerr * maxerr })
   let res := S.run sol 0 steps u0 xi
   let (fin, rest) := match res with
     | none => (Json.null, 0)
     | some (u, r) => (putKs putK u, r.length)
+  -- the generator-threaded loop `Sys.runGen` (Props/C13b.lean: `runGen_eq_run`), generator state = the arrays not yet
+  -- drawn, one call = take the head; only when the stream is long enough for one call per step
+  let (gfin, grest) := if steps ≤ xi.length then
+      match S.runGen sol (fun (l : List (Array K)) => (l.headD #[], l.tail)) 0 steps u0 xi with
+      | none => (Json.null, 0)
+      | some (u, g) => (putKs putK u, g.length)
+    else (fin, rest)
   pure (Json.mkObj [("final", fin), ("rest", toJson rest), ("vol", putKs putK vol),
-    ("vars", putKs putK vars)])
+    ("vars", putKs putK vars), ("gen_final", gfin), ("gen_rest", toJson grest)])
 
 end
 
